@@ -1,6 +1,7 @@
 (* Properties/C07.v -- C07: null forcing leaves the texture unchanged; unsupported regimes are rejected *)
 From Coq Require Import Reals ZArith List.
-From PV Require Import Num NumR Model_core Model_minerals Proofs_core Proofs_total Proofs_minerals Proofs_rhs Inst_core.
+From Coquelicot Require Import Hierarchy Derive.
+From PV Require Import Num NumR Model_core Model_minerals Proofs_core Proofs_total Proofs_minerals Proofs_rhs Inst_core Proofs_flow.
 From PV.gen Require Import Gen_core.
 Import ListNotations.
 Open Scope R_scope.
@@ -40,6 +41,11 @@ Proof. exact rhs_zero_strain_rate. Qed.
 
 Theorem C07_zero_L_zero_Fdot : forall (b : list R), all_zero (@mat_mul9 NumR (repeat 0 9) b).
 Proof. exact mat_mul9_zero. Qed.
+
+(* a state component whose rate vanishes on [a,b] is constant there along any exact solution *)
+Theorem C07_zero_rate_component_constant : forall (f : R -> R) (a b : R),
+  a <= b -> (forall t, a <= t <= b -> is_derive f t 0) -> f b = f a.
+Proof. exact zero_derivative_constant. Qed.
 
 (* zero boundary mobility: zero volume rates under any flow *)
 Theorem C07_zero_mobility : forall c phi fs es i, nth i (@frac_rates NumR c phi 0 fs es) 0 = 0.
